@@ -125,7 +125,7 @@ func c05Fuzz(t *fw.T) {
 	case 1:
 		src = gen.Pick(r, li.corpus)
 	default:
-		src = gen.ToValidUTF8(gen.Hostile(r, li.corpus, li.dict, 400))
+		src = gen.ToValidUTF8(hostileInput(r, "js", 400))
 	}
 	op := jsOptions[r.Intn(4)]
 	indent := -1
